@@ -529,6 +529,10 @@ pub fn check_bytes(bytes: &[u8], expected: &BTreeMap<u16, Vec<Item>>, all_closed
         );
         return;
     }
+    if let Some(e) = wire::first_surplus(&sp.frames) {
+        res.violate("malformed_outbound_frame", e);
+        return;
+    }
     for f in &sp.frames {
         if f.len > frame_max as usize {
             res.violate(
